@@ -109,3 +109,10 @@ Example ex_C17_two_cells :
   resolve (snd ex_scool) FA ["cells"; "cellB"; "bins"; "start"]%string = resolve (snd ex_scool) FA ["bins"; "start"]%string /\
   resolve (snd ex_scool) FA ["cells"; "cell A"; "bins"; "w"]%string <> resolve (snd ex_scool) FA ["cells"; "cellB"; "bins"; "w"]%string.
 Proof. exact ex_scool_ok. Qed.
+
+(** the deprecated `dtype=` spelling of the pixel dtype mapping is resolved in one place (_get_dtypes_arg) and the resolved mapping is
+    what create / create_from_unordered / create_scool go on to use: pinned in the source on every run (tools/py2v.py) *)
+From Cooler Require Import Gen.Translated.
+Theorem C17_dtypes_alias_source_pins : Gen.dtypes_alias_source_pins = true.
+Proof. reflexivity. Qed.
+Print Assumptions C17_dtypes_alias_source_pins.
